@@ -11,4 +11,4 @@ Extraction "extracted/cache/model.ml" Byte.of_N Byte.to_N
   honest_reader dmg_truncate dmg_extend dmg_flip dmg_delete dmg_write
   run_f trace_f count_ops
   start sched_step run_conc init_sys finished cstep
-  c05_holds_on c05_put_holds_on inv_holds_on c12_holds_on.
+  c05_holds_on c05_put_holds_on inv_holds_on c12_holds_on c12_post_holds_on.
